@@ -73,7 +73,13 @@ func getOffset(k []byte) int64 {
 
 // Deletes keys that are no longer required and inserts new keys to
 // allow reads to be performed correctly.
+//
+// The tracker holds disjoint, non-touching ranges as (start, end) key pairs: every
+// tracked range that overlaps or touches the write is merged with it.
 func (t *TFile) trackWrite(offset int64, length int64) {
+	if length <= 0 {
+		return
+	}
 
 	start, end := getFileRange(offset, length)
 
@@ -82,65 +88,40 @@ func (t *TFile) trackWrite(offset int64, length int64) {
 	defer t.lock.Unlock()
 
 	txn := t.tracker.Txn()
-	insertStart := true
-	insertEnd := true
-
-	if t.tracker.Len() == 0 {
-
-		txn.Insert(getKey(start), startFlag)
-		txn.Insert(getKey(end), endFlag)
-		t.tracker = txn.Commit()
-
-		return
-	}
+	newStart, newEnd := start, end
+	var rangeStart int64
 
 	fn := func(k []byte, v interface{}) bool {
-		isStart := v.(bool)
-		isEnd := !isStart
 		key := getOffset(k)
-
-		deleteKey := func() {
-			if key <= end {
-				txn.Delete(k)
-			}
-		}
-		switch {
-		case isStart && (key == start):
-			insertStart = false
-			return !terminate
-		case isStart && (key < start):
-			// Only interim keys need deleting
-			return !terminate
-		case isStart && (key > start):
-			deleteKey()
-			return !terminate
-		case isEnd && (key < start):
-			// Previous end hit and can be ignored, process next key
-			return !terminate
-		case isEnd && (key > start):
-			// There is an end that is after start and no other key in the range.
-			// Skip inserting start, previous start will cover the range.
-			insertStart = false
-			// This key might need deleting and process other keys
-			if key >= end {
-				insertEnd = false
-				return terminate
-			}
-			deleteKey()
-			return !terminate
-		default:
+		if v.(bool) == startFlag {
+			rangeStart = key
 			return !terminate
 		}
+		// key ends the tracked range [rangeStart, key)
+		if key < start {
+			// Range entirely before the write: keep it, process next key
+			return !terminate
+		}
+		if rangeStart > end {
+			// Range entirely after the write: keep it and all following ones
+			return terminate
+		}
+		// Range overlaps or touches the write: merge it
+		if rangeStart < newStart {
+			newStart = rangeStart
+		}
+		if key > newEnd {
+			newEnd = key
+		}
+		txn.Delete(getKey(rangeStart))
+		txn.Delete(k)
+		return !terminate
 	}
 
 	// TODO: To reduce the walk use prefix but needs to be walked twice offset and offset + length
 	t.tracker.Root().Walk(fn)
-	if insertStart {
-		txn.Insert(getKey(start), startFlag)
-	}
-	if insertEnd {
-		txn.Insert(getKey(end), endFlag)
-	}
+	txn.Insert(getKey(newStart), startFlag)
+	txn.Insert(getKey(newEnd), endFlag)
 	t.tracker = txn.Commit()
 }
 
